@@ -54,6 +54,7 @@ type pathCtx struct {
 	trace     []int32
 	pcN       int
 	nondets   []nondetRec
+	vars      []*expr // every declared constant of this path (inputs and internal)
 	names     map[string]int
 	choices   []int
 	mapOrders []int
@@ -82,6 +83,10 @@ func (c *pathCtx) freshName(base string) string {
 // decide consumes the next decision (from the prefix if replaying). n is the number of alternatives.
 // feasible reports, for a new decision point, which alternatives are feasible (nil = all, structural).
 func (c *pathCtx) decide(n int, feasible func(k int) bool) int {
+	return c.decideM(n, feasible, nil)
+}
+
+func (c *pathCtx) decideM(n int, feasible func(k int) bool, seed func(k int) model) int {
 	pos := len(c.trace)
 	if pos < len(c.prefix) {
 		d := c.prefix[pos]
@@ -103,7 +108,14 @@ func (c *pathCtx) decide(n int, feasible func(k int) bool) int {
 		alt := make([]int32, pos+1)
 		copy(alt, c.trace)
 		alt[pos] = int32(k)
-		c.ex.push(alt)
+		var m model
+		if seed != nil {
+			m = seed(k)
+		} else if c.lastModel != nil {
+			// structural alternative: the current model still satisfies the (unchanged) path condition
+			m = c.lastModel
+		}
+		c.ex.push(workItem{alt, copyModel(m)})
 	}
 	if first < 0 {
 		panic(pathAbort{"infeasible", "no feasible alternative"})
@@ -122,18 +134,44 @@ func (c *pathCtx) assume(e *expr) {
 	}
 	c.w.solver.assert(e)
 	c.pcN++
-	c.lastModel = nil
+	if c.lastModel != nil {
+		if v, ok := e.tryEval(c.lastModel); !ok || v != true {
+			c.lastModel = nil
+		}
+	}
 }
 
 // checkSat decides pc ∧ extra.
 func (c *pathCtx) checkSat(extra ...*expr) satResult {
+	r, _ := c.checkSatM(extra...)
+	return r
+}
+
+// checkSatM decides pc ∧ extra, using the cached model when it already satisfies extra.
+func (c *pathCtx) checkSatM(extra ...*expr) (satResult, model) {
 	for _, e := range extra {
 		if e.op == "b" && !e.bval {
-			return resUnsat
+			return resUnsat, nil
 		}
 	}
-	r, _ := c.w.solver.check(extra, nil)
-	return r
+	if c.lastModel != nil {
+		all := true
+		for _, e := range extra {
+			if v, ok := e.tryEval(c.lastModel); !ok || v != true {
+				all = false
+				break
+			}
+		}
+		if all {
+			c.ex.noteModelHit()
+			return resSat, c.lastModel
+		}
+	}
+	r, m := c.w.solver.check(extra, c.vars)
+	if r == resSat && len(c.vars) == 0 {
+		m = model{}
+	}
+	return r, m
 }
 
 // branch decides a symbolic condition, forking when both sides are feasible.
@@ -145,7 +183,8 @@ func (i *interpreter) branch(cond *expr) bool {
 	pos := len(c.trace)
 	replay := pos < len(c.prefix)
 	var sides [2]satResult
-	d := c.decide(2, func(k int) bool {
+	var models [2]model
+	d := c.decideM(2, func(k int) bool {
 		// alternative 0 = true side, 1 = false side
 		var e *expr
 		if k == 0 {
@@ -153,13 +192,16 @@ func (i *interpreter) branch(cond *expr) bool {
 		} else {
 			e = mkNot(cond)
 		}
-		r := c.checkSat(e)
-		sides[k] = r
+		r, m := c.checkSatM(e)
+		sides[k], models[k] = r, m
 		if r == resUnknown {
 			c.ex.noteUnknownBranch()
 		}
 		return r != resUnsat
-	})
+	}, func(k int) model { return models[k] })
+	if !replay && models[d] != nil {
+		c.lastModel = models[d]
+	}
 	if !replay {
 		c.solverBranches++
 		c.ex.noteBranch(sides[0] != resUnsat && sides[1] != resUnsat)
@@ -226,7 +268,13 @@ func (c *pathCtx) newIntVar(name string, k types.BasicKind, lo, hi *big.Int) *ex
 	c.w.solver.ensure(v)
 	c.w.solver.send(fmt.Sprintf("(assert (and (<= %s %s) (<= %s %s)))\n", smtInt(lo), smtName(nm), smtName(nm), smtInt(hi)))
 	c.nondets = append(c.nondets, nondetRec{nm, "int", v})
-	c.lastModel = nil
+	c.vars = append(c.vars, v)
+	if c.lastModel != nil {
+		// any in-range value extends the model (a seeded model may already know the variable)
+		if _, ok := c.lastModel[nm]; !ok {
+			c.lastModel[nm] = lo
+		}
+	}
 	return v
 }
 
@@ -235,6 +283,12 @@ func (c *pathCtx) newBoolVar(name string) *expr {
 	v := mkVar(nm, sBool)
 	c.w.solver.ensure(v)
 	c.nondets = append(c.nondets, nondetRec{nm, "bool", v})
+	c.vars = append(c.vars, v)
+	if c.lastModel != nil {
+		if _, ok := c.lastModel[nm]; !ok {
+			c.lastModel[nm] = false
+		}
+	}
 	return v
 }
 
@@ -243,6 +297,12 @@ func (c *pathCtx) newInternal(base string, s smtSort) *expr {
 	nm := c.freshName("$" + base)
 	v := mkVar(nm, s)
 	c.w.solver.ensure(v)
+	c.vars = append(c.vars, v)
+	if c.lastModel != nil {
+		if _, ok := c.lastModel[nm]; !ok {
+			c.lastModel = nil
+		}
+	}
 	return v
 }
 
@@ -302,4 +362,15 @@ func fmtVals(m map[string]string) string {
 		fmt.Fprintf(&sb, "%s=%s ", k, m[k])
 	}
 	return strings.TrimSpace(sb.String())
+}
+
+func copyModel(m model) model {
+	if m == nil {
+		return nil
+	}
+	out := make(model, len(m))
+	for k, v := range m {
+		out[k] = v
+	}
+	return out
 }
